@@ -9,9 +9,74 @@ from sim import model, simtok
 from sim.world import make_filter
 
 
-def run_pipeline(case, world, idx, op, results, rep, cpus):
+def _resolve_stage_fault(case, idx, op, results, cpus):
+    """Fault inside one stage of the pipeline, given as a fraction of that
+    stage's tokenize / sim_function / task count: resolved by a fault-free
+    rehearsal on fresh objects and written back into the op."""
+    import copy
+    from collections import Counter
+    from sim.env import ENV
+    from sim.execu import fresh_world
+    fault = op.get('fault')
+    if not fault or fault.get('at') is not None or \
+            fault.get('after') is not None:
+        return fault
+    w2 = fresh_world(case, idx)
+    op2 = copy.deepcopy(op)
+    op2.pop('fault', None)
+    probe = {}
+    rep2 = {'lib_calls': 0, 'stats': Counter(), 'tags': set(), 'sigs': set(),
+            'faults': Counter()}
+    saved = (ENV.events, ENV.seq)
+    ENV.events, ENV.seq = [], 0
+    try:
+        res2 = dict((j, r.copy(deep=True)) for j, r in results.items())
+        run_pipeline(case, w2, idx, op2, res2, rep2, cpus, probe=probe)
+    finally:
+        ENV.events, ENV.seq = saved
+    o = probe.get(fault.get('stage', 'm'))
+    if o is None:
+        return None
+    f = dict(fault)
+    frac = fault.get('frac', 0.5)
+    if fault['kind'] == 'tok_raise':
+        if not o.tok_events:
+            return None
+        f['at'] = 1 + min(o.tok_events - 1, int(frac * o.tok_events))
+    elif fault['kind'] == 'sim_raise':
+        if not o.sim_events:
+            return None
+        f['at'] = 1 + min(o.sim_events - 1, int(frac * o.sim_events))
+    else:
+        if not o.fanouts:
+            return None
+        fo = o.fanouts[0]
+        f['fanout'] = fo['fanout']
+        f['after'] = min(fo['tasks'] - 1, int(frac * fo['tasks']))
+    op['fault'] = f
+    return f
+
+
+def run_pipeline(case, world, idx, op, results, rep, cpus, probe=None):
     from sim.execu import V, check_state, oracle_for, run_call, \
         effective_jobs
+    fault = _resolve_stage_fault(case, idx, op, results, cpus) \
+        if probe is None else None
+    fstage = fault.get('stage', 'm') if fault else None
+
+    def sf(stage):
+        return fault if fstage == stage else None
+
+    def failed_by_fault(o):
+        if o.fault_fired is not None:
+            fk = o.fault_fired['kind']
+            rep['faults'][fk + ':fired'] += 1
+            rep['faults'][fk + ':configured'] += 1
+        if not o.ok and o.fault_fired is not None and \
+                o.exc_class in ('InjectedFault', 'SimWorkerCrash'):
+            rep['stats']['calls_failed_by_fault'] += 1
+            return True
+        return False
     ssj = world.ssj
     measure = op['measure']
     fspec = op['filter_spec']
@@ -31,8 +96,14 @@ def run_pipeline(case, world, idx, op, results, rep, cpus):
                 'l_attr': op['l_attr'], 'r_attr': op['r_attr'],
                 'l_prefix': lp, 'r_prefix': rp,
                 'n_jobs': op.get('n_jobs_f', 1), 'show_progress': False}
-        o1 = run_call(world, op_f, idx, op.get('plan_f'), None, results, cpus)
+        o1 = run_call(world, op_f, idx, op.get('plan_f'), sf('f'), results,
+                      cpus)
         rep['lib_calls'] += 1
+        if probe is not None:
+            probe['f'] = o1
+        if failed_by_fault(o1):
+            svs, _ = check_state(world, False, op, excused_flag=True)
+            return svs
         if not o1.ok:
             return [V('valid_completes', ['C15', 'C07'],
                       'C15 %s stage1-raises:%s' % (comp, o1.exc_class),
@@ -55,8 +126,14 @@ def run_pipeline(case, world, idx, op, results, rep, cpus):
                 'allow_missing': op.get('allow_missing', False),
                 'l_prefix': lp, 'r_prefix': rp, 'score': True,
                 'n_jobs': op.get('n_jobs_m', 1), 'show_progress': False}
-        o2 = run_call(world, op_m, idx, op.get('plan_m'), None, results2, cpus)
+        o2 = run_call(world, op_m, idx, op.get('plan_m'), sf('m'), results2,
+                      cpus)
         rep['lib_calls'] += 1
+        if probe is not None:
+            probe['m'] = o2
+        if failed_by_fault(o2):
+            svs, _ = check_state(world, False, op, excused_flag=True)
+            return svs
         if not o2.ok:
             return [V('valid_completes', ['C15', 'C07'],
                       'C15 %s stage2-raises:%s' % (comp, o2.exc_class),
@@ -70,8 +147,14 @@ def run_pipeline(case, world, idx, op, results, rep, cpus):
                 'allow_missing': op.get('allow_missing', False),
                 'l_prefix': lp, 'r_prefix': rp, 'score': True,
                 'n_jobs': op.get('n_jobs_j', 1), 'show_progress': False}
-        o3 = run_call(world, op_j, idx, op.get('plan_j'), None, results, cpus)
+        o3 = run_call(world, op_j, idx, op.get('plan_j'), sf('j'), results,
+                      cpus)
         rep['lib_calls'] += 1
+        if probe is not None:
+            probe['j'] = o3
+        if failed_by_fault(o3):
+            svs, _ = check_state(world, False, op, excused_flag=True)
+            return svs
         if not o3.ok:
             return [V('valid_completes', ['C15', 'C07'],
                       'C15 %s join-raises:%s' % (comp, o3.exc_class),
